@@ -203,7 +203,16 @@ def gen_plan(rng, idx, big=False):
                 vseed += 1
                 keep_content = state[p] is not None and r > 0.9
                 size = rng.choice(BIG_SIZES) if (big and rng.random() < 0.25) else rng.choice(SIZES)
-                state[p] = {'seed': state[p]['seed'] if keep_content else vseed, 'size': state[p]['size'] if keep_content else size,
+                kind = state[p].get('kind', 'rand') if keep_content else rng.choice(['rand', 'rand', 'rand', 'zeros', 'rep'])
+                others = [v for q, v in state.items() if q != p and v is not None]
+                if not keep_content and others and rng.random() < 0.2:
+                    src = rng.choice(others)            # an identical copy of another file of the tree
+                    size, kind = src['size'], src.get('kind', 'rand')
+                    copy_seed = src['seed']
+                else:
+                    copy_seed = None
+                state[p] = {'seed': copy_seed if copy_seed is not None else (state[p]['seed'] if keep_content else vseed),
+                            'size': state[p]['size'] if keep_content else size, 'kind': kind,
                             'mtime_ns': (1_500_000_000 + rng.randrange(200_000_000)) * 10 ** 9 + rng.choice([0, 1_000_000, 500_000_000, 999_000_000])}
         if rng.random() < 0.04:
             files = {}
@@ -226,7 +235,7 @@ def gen_plan(rng, idx, big=False):
 
     def block(phase):
         caller = 'u0' if rng.random() < 0.8 or not encrypted else 'u1'
-        for _ in range(rng.randint(3, 5)):
+        for _ in range(rng.randint(2, 4)):
             queries.append({'op': 'restore', 'caller': caller, 'sre': gen_sre(rng, nsnaps), 'fre': gen_fre(rng), 'phase': phase})
         for _ in range(rng.randint(3, 5)):
             queries.append({'op': 'ls', 'caller': caller, 'sre': gen_sre(rng, nsnaps), 'cols': gen_cols(rng, SCOLS),
@@ -245,6 +254,12 @@ def gen_plan(rng, idx, big=False):
 
 
 def content_of(v):
+    kind = v.get('kind', 'rand')
+    if kind == 'zeros':
+        return bytes(v['size'])
+    if kind == 'rep':                       # one block repeated: every full chunk holds the same bytes
+        block = random.Random(v['seed']).randbytes(16)
+        return (block * (v['size'] // 16 + 1))[:v['size']]
     return random.Random(v['seed']).randbytes(v['size'])
 
 
@@ -309,7 +324,7 @@ class SlowSnapshots(MemBackend):
 
     def download(self, name):
         if name.startswith('snapshots/'):
-            time.sleep(0.004)
+            time.sleep(0.003)
         return super().download(name)
 
 
@@ -799,9 +814,21 @@ def oracle(ex, ob, rep):
         cols = q['cols'] if q['cols'] is not None else (SDEFAULT if op == 'ls' else FDEFAULT)
         dcols = list(dict.fromkeys(cols))
         rows = parse_table(ob['stdout'], len(dcols))
-        if q['header'] and rows:
-            rows = rows[1:]
         col = {c: k for k, c in enumerate(dcols)}
+        if q['header'] and rows:
+            # a table with headings is read by its headings
+            labels = SLABEL if op == 'ls' else FLABEL
+            head = [c.strip() for c in rows[0]]
+            rows = rows[1:]
+            want_head = [labels[c] for c in dcols]
+            if sorted(head) != sorted(want_head):
+                ex.viol('listing_header', f'{op}: headings {head} for the selected columns {dcols}', q)
+                return
+            if head != want_head and rows:
+                k = next(i for i, (a, b) in enumerate(zip(head, want_head)) if a != b)
+                ex.viol('listing_header', f'{op}: the heading over column {k + 1} reads {head[k]!r} but the cells below it are the '
+                        f'{want_head[k]!r} values (e.g. {rows[0][k]!r}); selection {dcols}', q)
+            col = {c: head.index(labels[c]) for c in dcols}
         if any(len(r) != len(dcols) for r in rows):
             ex.viol('listing_shape', f'{op}: a row does not have {len(dcols)} cell(s)', q)
             return
@@ -976,7 +1003,7 @@ def probe_regex_combination(scratch: Path, rep: Report):
 
 # --------------------------------------------------------------------------- the check
 RULE = ('case = one history: 2-8 snapshots by up to 3 users (own / same family other key / other family) of an evolving tree '
-        '(paths appear, change, keep content with a new mtime, disappear; path pairs differing only by case; some files appended to / truncated between being read and being stat-ed; a quarter of the snapshots re-recorded in the pre-1.3 seconds metadata format) at scripted pairwise distinct utcnow() instants '
+        '(paths appear, change, keep content with a new mtime, disappear; path pairs differing only by case; identical copies, all-zero and repeated-block files; some files appended to / truncated between being read and being stat-ed; a quarter of the snapshots re-recorded in the pre-1.3 seconds metadata format) at scripted pairwise distinct utcnow() instants '
         '(same second different microseconds incl. 0, second...year roll-overs, years 1..9999, not in chronological order; one history in six under a daylight-saving TZ with readings in the skipped / repeated hour), '
         'then restore / list-snapshots / list-files queries with 0-2 snapshot and file patterns each and every kind of column '
         'selection, refused deletes, a delete by printed names, and the queries again; non-trivial = at least two readable '
@@ -1005,6 +1032,10 @@ def check_plans(plans, scratch: Path, rep: Report, with_model=True):
         rep.count(f'snapshots={len(plan["snapshots"])}')
         rep.count('tz=' + (plan.get('tz') or 'unset').split(',')[0])
         rep.count('loader_threads' + ('<' if plan['concurrent'] < len(plan['snapshots']) else '>=') + 'snapshots' + (',slow' if plan.get('slow_snapshot_downloads') else ''))
+        if any(len({(v['seed'], v['size'], v.get('kind')) for v in sn['files'].values()}) < len(sn['files']) for sn in plan['snapshots']):
+            rep.count('identical_copies')
+        if any(v.get('kind') in ('zeros', 'rep') and v['size'] > 200 for sn in plan['snapshots'] for v in sn['files'].values()):
+            rep.count('repeated_block_files')
         if any(len({q.lower() for q in sn['files']}) < len(sn['files']) for sn in plan['snapshots']):
             rep.count('case_only_path_pairs')
         for s in plan['snapshots']:
@@ -1043,7 +1074,7 @@ def check_plans(plans, scratch: Path, rep: Report, with_model=True):
 
 def run(ctx) -> Report:
     rep = Report(rule=RULE)
-    n = ctx.scale(56, 700)
+    n = ctx.scale(46, 700)
     nbig = ctx.scale(2, 12)
     plans = [gen_plan(ctx.rng, i, big=i < nbig) for i in range(n)]
     check_plans(plans, ctx.scratch, rep)
